@@ -221,6 +221,96 @@ func sameLen(a, b ssa.Value, assumed map[[2]ssa.Value]bool) bool {
 		ab, ak, ok1 := appendOf(a)
 		bb, bk, ok2 := appendOf(b)
 		return ok1 && ok2 && ak == bk && sameLen(ab, bb, assumed)
+	case *ssa.Extract:
+		// two results of one call of a function of this package: its returns pair up
+		y, ok := b.(*ssa.Extract)
+		if !ok || x.Tuple != y.Tuple {
+			return false
+		}
+		c, ok := x.Tuple.(*ssa.Call)
+		if !ok {
+			return false
+		}
+		g := c.Call.StaticCallee()
+		if g == nil || len(g.Blocks) == 0 || g.Pkg != x.Parent().Pkg {
+			return false
+		}
+		assumed[k] = true
+		n := 0
+		for _, gb := range g.Blocks {
+			ret, ok := gb.Instrs[len(gb.Instrs)-1].(*ssa.Return)
+			if !ok || len(ret.Results) <= x.Index || len(ret.Results) <= y.Index {
+				continue
+			}
+			n++
+			if !sameLen(ret.Results[x.Index], ret.Results[y.Index], assumed) {
+				return false
+			}
+		}
+		return n > 0
+	case *ssa.Parameter:
+		// two parameters of one function: the arguments pair up at every call
+		y, ok := b.(*ssa.Parameter)
+		if !ok || x.Parent() != y.Parent() {
+			return false
+		}
+		fn := x.Parent()
+		ix, iy := -1, -1
+		for i, pa := range fn.Params {
+			if pa == x {
+				ix = i
+			}
+			if pa == y {
+				iy = i
+			}
+		}
+		if ix < 0 || iy < 0 || fn.Pkg == nil {
+			return false
+		}
+		assumed[k] = true
+		n := 0
+		for _, mem := range fn.Pkg.Members {
+			var fs []*ssa.Function
+			switch m := mem.(type) {
+			case *ssa.Function:
+				fs = append(fs, m)
+			case *ssa.Type:
+				for _, t := range []types.Type{m.Type(), types.NewPointer(m.Type())} {
+					ms := fn.Prog.MethodSets.MethodSet(t)
+					for i := 0; i < ms.Len(); i++ {
+						if mf := fn.Prog.MethodValue(ms.At(i)); mf != nil && mf.Synthetic == "" {
+							fs = append(fs, mf)
+						}
+					}
+				}
+			}
+			for len(fs) > 0 {
+				f := fs[0]
+				fs = fs[1:]
+				fs = append(fs, f.AnonFuncs...)
+				for _, bb := range f.Blocks {
+					for _, ins := range bb.Instrs {
+						for _, op := range ins.Operands(nil) {
+							if *op == ssa.Value(fn) {
+								ci, isCall := ins.(ssa.CallInstruction)
+								if !isCall || ci.Common().Value != ssa.Value(fn) {
+									return false // used as a value: callers unknown
+								}
+							}
+						}
+						ci, isCall := ins.(ssa.CallInstruction)
+						if !isCall || ci.Common().StaticCallee() != fn {
+							continue
+						}
+						n++
+						if !sameLen(ci.Common().Args[ix], ci.Common().Args[iy], assumed) {
+							return false
+						}
+					}
+				}
+			}
+		}
+		return n > 0
 	}
 	return false
 }
